@@ -65,8 +65,8 @@ func main() {
 	reg := e2e.NewRegistry()
 	up := e2e.NewHTTPUpstream("u1", reg)
 	defer up.Close()
-	ref1, ref2, ref3, ref4 := e2e.FreeAddr(), e2e.FreeAddr(), e2e.FreeAddr(), e2e.FreeAddr()
-	laddr := e2e.FreeAddr()
+	ref1, ref2, ref3, ref4 := e2e.RefusedAddr(), e2e.RefusedAddr(), e2e.RefusedAddr(), e2e.RefusedAddr()
+	laddr := e2e.ListenerAddr()
 	rrr := v2.LbType("LB_REQUEST_ROUNDROBIN") // deterministic host order per request: index 0 first, next on retry
 	clusters := e2e.BuildClusters([]e2e.ClusterSpec{
 		{Name: "direct", Hosts: []string{up.Addr}, LbType: rrr},
